@@ -53,6 +53,8 @@ def violations_of(prop, root):
             rep.anchor_missing(name, e)
         except TooComplex as e:
             rep.anchor_missing(name, f'unrecognised-shape: {e}')
+        except (KeyError, IndexError, TypeError, AttributeError, NameError, ValueError) as e:
+            rep.anchor_missing(name, f'unrecognised-shape: {type(e).__name__}: {e}')
     return {o['key']: o for o in rep.obligations if o['verdict'] == 'violation'}
 
 
